@@ -138,6 +138,6 @@ if __name__ == "__main__":
     if len(sys.argv) < 3:
         raise SystemExit(__doc__)
     if sys.argv[1] == "confirm":
-        print(json.dumps(confirm(os.path.abspath(sys.argv[2])), ensure_ascii=False))
+        print(json.dumps(confirm(os.path.abspath(sys.argv[2]))))
     elif sys.argv[1] == "run":
-        print(json.dumps(run(os.path.abspath(sys.argv[2]), sys.argv[3:]), ensure_ascii=False))
+        print(json.dumps(run(os.path.abspath(sys.argv[2]), sys.argv[3:])))
